@@ -443,6 +443,8 @@ mod imp {
         }
         fn gen(&self, seed: u64, tier: Tier) -> Run {
             let mut run = gen_sess_run("C07", seed, tier, true);
+            // an earlier e-graph in the same thread (same insertions, other equations and justifications)
+            run.set("prelude", Rng::stream(seed, "prelude").chance(1, 4) as i64);
             run.set("nodewise", 0);
             run
         }
@@ -461,6 +463,40 @@ mod imp {
         fn exec(&self, run: &Run) -> Outcome {
             let mut out = Outcome::default();
             seam::apply(&run.knobs());
+            if run.get("prelude") != 0 {
+                // Another e-graph lives and dies in this thread first. It gets the same insertions in the
+                // same order (so its class ids coincide with the ones of the e-graph under test), but
+                // other equations (left side of equation i with the right side of equation i+1) under
+                // other justifications, and it is asked for explanations. Nothing of it may show up in
+                // the proofs of the second e-graph.
+                let r = catch_op(|| {
+                    let mut d: EGraph<LS, ()> = EGraph::new(());
+                    let mut nm = Naming::new(run.get("naming") as u32);
+                    let mut hs: BTreeMap<Tm, AppliedId> = BTreeMap::new();
+                    for op in run.ops.iter().filter(|o| o.name == "add" || o.name == "union") {
+                        for t in &op.t {
+                            for sub in t.subterms_bottom_up() {
+                                if !hs.contains_key(&sub) {
+                                    let h = d.add_syn_expr(to_re::<LS>(&sub, &mut nm));
+                                    hs.insert(sub.clone(), h);
+                                }
+                            }
+                        }
+                    }
+                    let unions: Vec<&Op> = run.ops.iter().filter(|o| o.name == "union").collect();
+                    let n = unions.len();
+                    for i in 0..n {
+                        let (a, b) = (&unions[i].t[0], &unions[(i + 1) % n].t[1]);
+                        d.union_justified(&hs[a], &hs[b], Some(format!("pre{i}")));
+                        let _ = d.explain_equivalence(to_re::<LS>(a, &mut nm), to_re::<LS>(b, &mut nm));
+                    }
+                });
+                if r.is_err() {
+                    out.discarded = Some("panic".into());
+                    return out;
+                }
+                out.bump("prelude_egraphs");
+            }
             let mut s: Sess<LS, ()> = Sess::new(EGraph::new(()), run.get("naming") as u32);
             let mut asserted: Vec<(Tm, Tm, String)> = Vec::new();
             let mut orng = Rng::stream(run.get("oracle_seed") as u64, "oracle-sampling");
